@@ -530,6 +530,11 @@ def replay(case, M_):
         cfg = dict(case.get("cfg", {}))
         if cfg.get("assumed_time_zone") is not None:
             cfg["assumed_time_zone"] = tuple(cfg["assumed_time_zone"])
+        # prelude: parsers of the other configurations coexist in one process (as in the check's workers and in real
+        # programs: the CLI, DurationParser and the dumper each build their own TimePointParser)
+        for other in ({}, {"num_expanded_year_digits": 0}, {"num_expanded_year_digits": 3}, {"allow_only_basic": True},
+                      {"allow_truncated": True}):
+            parsers.TimePointParser(**other)
         P = parsers.TimePointParser(**cfg)
         txt = case["text"]
         if case["check"] == "reject":
